@@ -68,6 +68,40 @@ def read_back(path: str, rp: str, qp: str):
     return out
 
 
+def score_lines(rows, refs: Dict, qrys: Dict, extra: Dict, parsed_main, tag) -> List[Dict]:
+    """Trace_RowScore lines for the rows Program.run() returned (the records of the main file, in order)"""
+    from fractions import Fraction
+    dp = Fraction(float(extra.get("-dp", 1.0))).limit_denominator(8)
+    unit = 10 * dp.denominator
+    par = {"sp": 10 * int(extra.get("-sp", 1000)), "dpnum": dp.numerator, "dpden": dp.denominator,
+           "su": 10 * int(extra.get("-su", -250)), "maxD": 10 * int(extra.get("-d", 1500)),
+           "ms": 1, "bs": 1, "mnum": 1, "mden": 1, "variant": 0, "scale": 1}
+    recs = [r for r in parsed_main["records"] if not r.get("malformed")]
+    out = []
+
+    def d10(v):
+        return int(round(float(v) * 10))
+
+    for k, row in enumerate(rows):
+        ref, qry = refs.get(int(row.referenceId)), qrys.get(int(row.queryId))
+        if ref is None or qry is None or k >= len(recs):
+            continue
+        segs = []
+        for s_ in row.segments:
+            pos = []
+            for p in s_.positions:
+                pr = pipeline._pos(p)
+                pos.append({"k": pr["k"], "r": [pr["r"][0], d10(pr["r"][1])], "q": [pr["q"][0], d10(pr["q"][1])],
+                            "sh": d10(pr["sh"]), "sc": int(round(pr["sc"] * unit))})
+            segs.append({"peak": d10(s_.peak.position), "pos": pos})
+        x0 = qry["x"][0]
+        out.append({"in": {"ref": ref["x"], "qry": [v - x0 for v in qry["x"]], "qlen": qry["x"][-1] - x0 + 1,   # the model mirrors with (qlen - 1) - x in its own unit (deci-bp here)
+                           "shift": 0, "rev": bool(row.reverseStrand), "peaks": [], "par": par},
+                    "segs": segs, "conf": int(round(float(row.confidence) * unit)), "written": recs[k]["conf"],
+                    "tag": dict(tag, query=int(row.queryId), rest=recs[k]["rest"], segments=len(segs))})
+    return out
+
+
 def explore_input(seed: int, idx: int, modes: List[str], n_qry: int, with_readback: bool, record: bool,
                   kinds=None, keep_rows: bool = False) -> Dict:
     """one generated input, run in every mode in process; returns Trace_Xmap lines and a per-mode summary"""
@@ -112,8 +146,10 @@ def explore_input(seed: int, idx: int, modes: List[str], n_qry: int, with_readba
                         line["kind"] = "readback"
                         line["rb"] = rb[kth - 1]
                     lines.append(line)
-            if keep_rows and res["rows"] is not None:
-                ms["rows"] = res["rows"]
+            if keep_rows and res["rows"] is not None and res["files"].get("main"):
+                summary.setdefault("score_lines", []).extend(
+                    score_lines(res["rows"].rows, refs, qrys, extra, res["files"]["main"],
+                                {"input": idx, "mode": mode}))
             summary["modes"][mode] = ms
     finally:
         shutil.rmtree(wd, ignore_errors=True)
@@ -126,10 +162,10 @@ def _worker(args):
 
 
 def explore(ctx: Ctx, n_inputs: int, modes=None, n_qry: int = 10, with_readback: bool = False, record: bool = False,
-            kinds=None, salt: int = 0):
+            kinds=None, salt: int = 0, keep_rows: bool = False):
     import multiprocessing as mp
     os.environ["VERIF_WORK"] = ctx.workdir
-    jobs = [(ctx.seed * 77 + salt, i, modes or MODES, n_qry, with_readback, record, kinds) for i in range(n_inputs)]
+    jobs = [(ctx.seed * 77 + salt, i, modes or MODES, n_qry, with_readback, record, kinds, keep_rows) for i in range(n_inputs)]
     with mp.get_context("fork").Pool(min(14, len(jobs))) as pool:
         res = pool.map(_worker, jobs)
     return res
